@@ -1,0 +1,10 @@
+//go:build verif
+
+package loop
+
+import "sync/atomic"
+
+// VerifSCEVBodies counts evaluations of computeSCEVBody (verification builds only).
+var VerifSCEVBodies atomic.Int64
+
+func verifCountSCEV() { VerifSCEVBodies.Add(1) }
